@@ -183,7 +183,10 @@ func c11NewHandles(decDocs []string, decFrom int) *c11Handles {
 	q8, _ := json.BuildFieldQuery("A", "In")
 	q9, _ := json.BuildFieldQuery(json.BuildSubFieldQuery("In").Fields("X", "Y"))
 	q10, _ := json.BuildFieldQuery("A", json.BuildSubFieldQuery("I").Fields("P"), json.BuildSubFieldQuery("M").Fields("ZA", "ZB"))
-	h.queries = []*json.FieldQuery{q1, q2, q3, q4, q5, q6, q7, q8, q9, q10}
+	// the same names in the same order, nested differently
+	q11, _ := json.BuildFieldQuery("A", json.BuildSubFieldQuery("In").Fields("X"))
+	q12, _ := json.BuildFieldQuery("A", "In", "X")
+	h.queries = []*json.FieldQuery{q1, q2, q3, q4, q5, q6, q7, q8, q9, q10, q11, q12}
 	h.enc = json.NewEncoder(h.encBuf)
 	h.dec = json.NewDecoder(&chunkReader{data: []byte(strings.Join(decDocs[decFrom:], " ")), size: 7})
 	return h
@@ -466,7 +469,7 @@ func c11Pool(rng *rand.Rand) (calls []c11Call, decDocs []string) {
 	}
 	// directed: different field queries, one after the other, on one type with an embedded struct (what
 	// one query selects must not shape the program another query gets)
-	for qi := 3; qi < 10; qi++ {
+	for qi := 3; qi < 12; qi++ {
 		qi := qi
 		for vi, v := range []interface{}{
 			// an interface-typed member and a context-aware marshaler under sub-queries (what they get must
